@@ -103,6 +103,9 @@ class Job:
         self.ghost = {}               # {(regex on pretty, loop ordinal): ghost statements appended to the loop body}
         self.trusted = []
         self.serves = None
+        # assume-guarantee summaries: [(regex on pretty, callable(fi)->C body text, [roots of the jobs that prove the real
+        # function against the contract the body implements])]; the matched function's body is replaced by the text
+        self.summaries = []
 
 
 # ------------------------------------------------------------------- lowering
@@ -158,10 +161,14 @@ def lower_group(name, tu_text, log=None):
         ipath = os.path.join(kdir, 'info.json')
         if os.path.exists(cpath) and os.path.exists(ipath):
             return cpath, json.load(open(ipath))
-        # drop stale keys of this group
+        # drop stale keys of this group (not the recent ones: another check that started before the tree changed may still read them)
         for d in os.listdir(gdir):
             if d != '.lock' and d != key:
-                shutil.rmtree(os.path.join(gdir, d), ignore_errors=True)
+                try:
+                    if time.time() - os.path.getmtime(os.path.join(gdir, d)) > 2 * 3600:
+                        shutil.rmtree(os.path.join(gdir, d), ignore_errors=True)
+                except OSError:
+                    pass
         os.makedirs(kdir, exist_ok=True)
         tu = os.path.join(kdir, 'tu.cpp')
         open(tu, 'w').write(tu_text)
@@ -266,8 +273,30 @@ def weave(job, cpath, info, outdir, witness_mode=False):
                 c = Contract(*(list(c.clauses) + [E('vf_exc.pending == __CPROVER_old(vf_exc.pending)', 'stub-cannot-raise')]))
             contracts[cn] = c
             replaced.append(cn)
+    # assume-guarantee summaries: the body of a callee is replaced by an executable form of a contract that another
+    # job proves on the real body of exactly the same instantiation
+    summarised = {}
+    for pat, body_fn, provers in getattr(job, 'summaries', []):
+        hits = [h for h in find_fn(info, pat, reach) if h != entry]
+        if not hits:
+            raise Undecided('summary pattern %r matches no function reachable from the entry' % pat)
+        proved = {}
+        for r in provers:
+            try:
+                proved[entry_of(info, r)[1]] = r
+            except Undecided:
+                pass
+        for cn in hits:
+            if cn not in proved:
+                raise Undecided('summary used for %s but no job proves that instantiation' % info['functions'][cn]['pretty'])
+            if cn in contracts:
+                raise Undecided('function %s is both stubbed and summarised' % cn)
+            summarised[cn] = (body_fn(info['functions'][cn]), proved[cn])
     # what lies behind a replaced call is not part of this proof
-    reach = reachable(info, entry, stop=set(replaced))
+    reach = reachable(info, entry, stop=set(replaced) | set(summarised))
+    for cn in list(summarised):
+        if cn not in reach:       # only reachable through another summarised or replaced callee
+            del summarised[cn]
     for cn in list(contracts):
         if cn != entry and cn not in reach:
             del contracts[cn]
@@ -282,6 +311,11 @@ def weave(job, cpath, info, outdir, witness_mode=False):
             if re.search(r'(^|\s)(std::|tao::pegtl::demangle|__gnu_cxx::)', pretty.split('(')[0]) or pretty.startswith('std::'):
                 targets = []
                 sig = f.get('sig', '')
+                rt = sig.split('(')[0].rsplit(' ', 1)[0].strip() if '(' in sig else ''
+                m_rt = re.match(r'struct (S_\w+)\*$', rt)
+                if not (rt == 'void' or (m_rt and ('struct %s {' % m_rt.group(1)) in src and 'opaque library type' in src.split('struct %s {' % m_rt.group(1))[1][:200])):
+                    # a result that the caller computes with would be unconstrained under the default contract: never guess
+                    raise Undecided('library function without a model whose result matters: %s' % pretty)
                 for m_ in re.finditer(r'struct (S_\w+)\* (\w+)(?=[,)])', sig[sig.index('('):] if '(' in sig else ''):
                     if 'opaque library type' in src.split('struct %s {' % m_.group(1))[1][:200] if ('struct %s {' % m_.group(1)) in src else False:
                         targets.append('*%s' % m_.group(2))
@@ -292,9 +326,12 @@ def weave(job, cpath, info, outdir, witness_mode=False):
             raise Undecided('reachable external function without contract: %s' % f.get('pretty'))
     # loops
     loops = {}
-    for (pat, ordn), text in job.loops.items():
+    for lk, text in job.loops.items():
+        pat, ordn = lk[0], lk[1]
         hits = find_fn(info, pat, reach)
         if not hits:
+            if len(lk) > 2 and lk[2] == 'opt':
+                continue      # the job also covers an implementation without this loop (e.g. a library algorithm under a model contract)
             raise Undecided('loop contract pattern %r matches no reachable function' % pat)
         for cn in hits:
             if ordn not in info['functions'][cn].get('loops', []):
@@ -304,7 +341,7 @@ def weave(job, cpath, info, outdir, witness_mode=False):
     missing = []
     for cn in sorted(reach):
         f = info['functions'].get(cn, {})
-        if f.get('kind') == 'lifted' and cn not in replaced:
+        if f.get('kind') == 'lifted' and cn not in replaced and cn not in summarised:
             for o in f.get('loops', []):
                 if (cn, o) not in loops:
                     missing.append('%s#%d' % (f['pretty'], o))
@@ -354,6 +391,11 @@ def weave(job, cpath, info, outdir, witness_mode=False):
     def prune(m):
         return m.group(0) if m.group(1) in keep else '/* (pruned: %s not reachable from the entry) */' % m.group(1)
     src = re.sub(r'/\*@FN (\w+)@\*/\n.*?\n/\*@ENDFN@\*/', prune, src, flags=re.S)
+    for cn, (body, prover) in summarised.items():
+        rx = re.compile(r'(/\*@FN %s@\*/\n.*?/\*@CONTRACT %s@\*/\n)\{\n.*?\n\}\n(/\*@ENDFN@\*/)' % (cn, cn), re.S)
+        if not rx.search(src):
+            raise Undecided('cannot place the summary of %s' % cn)
+        src = rx.sub(lambda m: m.group(1) + '{ /* SUMMARY (proved on the real body by job %s) */\n%s\n}\n' % (prover, body) + m.group(2), src, count=1)
     out = src.replace('/*@PRELUDE@*/', '/* ---- prelude (spec side) ---- */\n' + late_subst(job.prelude))
     out = re.sub(r'/\*@CONTRACT (\w+)@\*/', sub_contract, out)
     out = re.sub(r'/\*@LOOP (\w+) (\d+)@\*/', sub_loop, out)
@@ -384,7 +426,7 @@ def weave(job, cpath, info, outdir, witness_mode=False):
     path = os.path.join(outdir, 'woven.c')
     open(path, 'w').write(out)
     return {'path': path, 'entry': entry, 'replaced': replaced, 'contracts': contracts, 'loops': loops, 'trusted': trusted,
-            'has_loops': bool(loops)}
+            'has_loops': bool(loops), 'summarised': {cn: v[1] for cn, v in summarised.items()}}
 
 
 _toolver = {}
@@ -448,6 +490,7 @@ def run_job(job, cpath, info, tier, defines=(), subdir=None, witness_mode=False,
                 pass
         res['_cfile'] = cfile
         res['replaced'] = [info['functions'][c]['pretty'] for c in w['replaced']]
+        res['summarised'] = ['%s (proved by job %s)' % (info['functions'][c]['pretty'], r) for c, r in w.get('summarised', {}).items()]
         res['trusted_library_calls'] = w.get('trusted', [])
         a = os.path.join(jdir, 'a.gb'); b = os.path.join(jdir, 'b.gb')
         rc, so, se, dt = run_cmd(['goto-cc', '--function', 'main', '-DVF_CBMC'] + list(defines) + ['-I', os.path.join(VERIF, 'contracts'),
